@@ -354,10 +354,10 @@ bool SchindelhauerTMCG::TMCG_VerifyMaskValue
 		std::istream &in, std::ostream &out)
 {
 	std::vector<mpz_ptr> T;
-	mpz_t foo, bar, lej;
+	mpz_t foo, bar, lej, gcd;
 	// send security parameter
 	out << TMCG_SecurityLevel << std::endl;
-	mpz_init(foo), mpz_init(bar), mpz_init(lej);
+	mpz_init(foo), mpz_init(bar), mpz_init(lej), mpz_init(gcd);
 	try
 	{
 		// phase (V3)
@@ -378,6 +378,10 @@ bool SchindelhauerTMCG::TMCG_VerifyMaskValue
 			out << foo << std::endl;
 			// receive proof (r, b)
 			in >> bar, in >> lej;
+			// check whether $r \in Z^*_m$ (otherwise t_i = 0, r = 0 passes for any z, zz)
+			mpz_gcd(gcd, bar, key.m);
+			if (mpz_cmp_ui(gcd, 1UL))
+				throw false;
 			// verify proof, store result of TMCG_MaskValue() in foo
 			if (mpz_get_ui(foo) & 1UL)
 				TMCG_MaskValue(key, zz, foo, bar, lej);
@@ -391,7 +395,7 @@ bool SchindelhauerTMCG::TMCG_VerifyMaskValue
 	}
 	catch (bool return_value)
 	{
-		mpz_clear(foo), mpz_clear(bar), mpz_clear(lej);
+		mpz_clear(foo), mpz_clear(bar), mpz_clear(lej), mpz_clear(gcd);
 		for (std::vector<mpz_ptr>::iterator i = T.begin(); i != T.end(); ++i)
 			mpz_clear(*i), delete [] *i;
 		return return_value;
@@ -538,10 +542,10 @@ bool SchindelhauerTMCG::TMCG_VerifyMaskOne
 	 std::istream &in, std::ostream &out)
 {
 	std::vector<mpz_ptr> RR, SS;
-	mpz_t foo, bar, lej;
+	mpz_t foo, bar, lej, gcd;
 	// send security parameter
 	out << TMCG_SecurityLevel << std::endl;
-	mpz_init(foo), mpz_init(bar), mpz_init(lej);
+	mpz_init(foo), mpz_init(bar), mpz_init(lej), mpz_init(gcd);
 	try
 	{
 		// phase (V3)
@@ -566,6 +570,10 @@ bool SchindelhauerTMCG::TMCG_VerifyMaskOne
 			out << foo << std::endl;
 			// receive proof (r, b)
 			in >> bar, in >> lej;
+			// check whether $r \in Z^*_m$ (otherwise R_i = S_i = 0, r = 0 passes for t = 0)
+			mpz_gcd(gcd, bar, key.m);
+			if (mpz_cmp_ui(gcd, 1UL))
+				throw false;
 			// verify proof
 			mpz_mul(lej, bar, bar);
 			mpz_mod(lej, lej, key.m);
@@ -587,7 +595,7 @@ bool SchindelhauerTMCG::TMCG_VerifyMaskOne
 	}
 	catch (bool return_value)
 	{	
-		mpz_clear(foo), mpz_clear(bar), mpz_clear(lej);
+		mpz_clear(foo), mpz_clear(bar), mpz_clear(lej), mpz_clear(gcd);
 		for (std::vector<mpz_ptr>::iterator i = RR.begin(); i != RR.end(); ++i)
 			mpz_clear(*i), delete [] *i;
 		for (std::vector<mpz_ptr>::iterator i = SS.begin(); i != SS.end(); ++i)
